@@ -65,6 +65,9 @@ def extract(M, net, num=float):
                     "alpha": (num(l.alpha) if vsl is not None else None),
                 }
             )
+            if getattr(l, "_vf_user", False):  # a user-defined link kind of the harness (vf/userkinds.py)
+                desc["links"][-1]["user_cap"] = (num(l.capacity) if l.capacity is not None else None)
+                desc["links"][-1]["user_reorder"] = bool(l.reorder)
             objmap[lid] = l
             rev[id(l)] = lid
     k = 0
@@ -85,6 +88,10 @@ def extract(M, net, num=float):
                     "eq": (o.flow_eq_type if kind in ("ramp", "simple") else None),
                 }
             )
+            if kind == "ideal" and getattr(o, "_vf_user", False):  # user-defined boundary origin (vf/userkinds.py)
+                desc["origins"][-1]["user"] = True
+                desc["origins"][-1]["user_q"] = (num(o.flow) if o.flow is not None else None)
+                desc["origins"][-1]["user_v"] = (num(o.speed) if o.speed is not None else None)
             objmap[oid] = o
             rev[id(o)] = oid
     k = 0
